@@ -341,6 +341,7 @@ pub fn run(ctx: &mut Ctx) {
         if case % 7 == 3 {
             cfg.hostile_names = true;
         }
+        cfg.compact_unit = case % 4 == 0;
         if case % 11 == 5 {
             cfg.max_depth = 5;
             cfg.max_defs = 12;
